@@ -16,5 +16,6 @@ CHECKS["C20"] = dict(
           "Non-trivial = plan with >=2 writers and a streamer that re-subscribed or disconnected while writes were in flight; distinct by plan hash."),
     assumptions=["one authorised writer per channel, so per-channel sequence numbers identify a writer's write order",
                  "after a re-subscribe, two further frames of the old key set are tolerated (one buffered in the outlet, one in flight)"],
-    tests=[dict(name="TestC20", race=True, stall_is_violation=True, quick=dict(cases=150, shards=4, gomaxprocs=[2, 4, 8, 16], timeout=600), thorough=dict(cases=1500, shards=16, gomaxprocs=[1, 2, 4, 16], timeout=3000))],
+    tests=[dict(name="TestC20", race=True, stall_is_violation=True, quick=dict(cases=150, shards=4, gomaxprocs=[2, 4, 8, 16], timeout=600), thorough=dict(cases=1500, shards=16, gomaxprocs=[1, 2, 4, 16], timeout=3000)),
+           dict(name="TestC20Virtual", quick=dict(cases=1500, shards=2), thorough=dict(cases=15000, shards=8, timeout=1500))],
 )
